@@ -5,7 +5,7 @@ pub(crate) mod kani_call_pattern {
     use super::*;
     #[allow(unused_imports)]
     use crate::alloc::{vec, Vec};
-    use crate::verif::{TestFn, TestFn2};
+    use crate::verif::{TestFn, TestFn0, TestFn2};
 
     pub(crate) fn no_matcher() -> DynInputMatcher {
         DynInputMatcher {
@@ -145,6 +145,27 @@ pub(crate) mod kani_call_pattern {
         kani::cover!(kind == 0 && arg != want && !with_reporter);
         kani::cover!(kind == 1);
         kani::cover!(kind == 2);
+        core::mem::forget(pattern);
+    }
+    //@ props=C01,C06 tier=quick fns=CallPattern::match_inputs,DynInputMatcher::from_matching_fn,downcast_box bounds="zero-sized inputs; matcher verdict symbolic; reporter on/off"
+    /// A matcher over zero-sized inputs is still consulted: the verdict is the closure's, not a constant.
+    #[kani::proof]
+    #[kani::unwind(3)]
+    fn c01_match_inputs_zero_sized() {
+        let accept: bool = kani::any();
+        let with_reporter: bool = kani::any();
+        let input_matcher = DynInputMatcher::from_matching_fn::<TestFn0>(&move |m| m.func(move |_i: &(), _| accept));
+        let pattern = CallPattern {
+            input_matcher,
+            responders: Vec::new(),
+            ordered_call_index_range: 0..0,
+            call_counter: counter::CallCounter::kani_with(0, 0, 1),
+        };
+        let mut rep = MismatchReporter::new_enabled();
+        let res = pattern.match_inputs::<TestFn0>(&(), if with_reporter { Some(&mut rep) } else { None });
+        assert!(matches!(res, Ok(b) if b == accept));
+        kani::cover!(accept && with_reporter);
+        kani::cover!(!accept && !with_reporter);
         core::mem::forget(pattern);
     }
 }
